@@ -159,41 +159,95 @@ def s_ignore(F, res):
     filt_fields = set()
     value_dependent = set()
     wrong_polarity = []
+    late_adds = []
     good3 = True
-    for bi, t in fu:
-        src = mir.provenance(b, du, t["args"][1])
-        coll = [x for x in src if x.kind == "call" and x.callee == "std::iter::Iterator::collect"]
+
+    def candidates(g, dg, op, fld_of_operand, depth=0):
+        """how the set of refs in `op` (a value in g) was built: the membership filters it went through and what was added to
+        it afterwards.  fld_of_operand(operand) -> remembering field a captured / passed operand stands for."""
         here = set()
-        for x in coll:
-            for y in mir.provenance(b, du, x.term["args"][0]):
-                if y.kind == "call" and y.callee == "std::iter::Iterator::filter":
-                    for z in mir.provenance(b, du, y.term["args"][1]):
-                        if z.kind == "agg" and z.rv.get("closure"):
-                            g = F.fns.get(z.rv["closure"])
-                            capt = {}
-                            for i, o in enumerate(z.rv["ops"]):
-                                fld = _field_of(mir.provenance(b, du, o), fields)
-                                if fld:
-                                    capt[i] = fld
-                            leaves = bool_return_leaves(F, g, follow=lambda r: r.startswith(SELP))
-                            polarity = None
-                            if leaves is not None:
-                                for sign, t2, g2 in leaves:
-                                    if (t2.get("callee") or "").split("::")[-1] in MEMBER_READS:
-                                        polarity = sign
-                            if polarity is not None and polarity > 0:
-                                wrong_polarity.append(z.rv["closure"])
-                                continue
-                            for a in accesses(F, g, fields, 1, owner_capt=capt):
-                                if a.kind == "member":
-                                    here.add(a.field)
-                                    if a.op == "get" and re.search(r"Map<", fields[a.field]):
-                                        value_dependent.add(a.field)
+        src = mir.provenance(g, dg, op)
+        for x in src:
+            if x.kind == "call" and x.callee == "std::iter::Iterator::collect":
+                # anything added to the collected set later on bypasses the filter
+                dest = x.term["dest"]["l"]
+                roots = {dest}
+                for _ in range(4):
+                    for bj, sj, s2 in mir.stmts(g):
+                        if s2["rv"]["k"] in ("use", "ref") and not s2["lhs"]["p"]:
+                            pl2 = mir.op_place(s2["rv"].get("op")) if s2["rv"]["k"] == "use" else s2["rv"]["pl"]
+                            if pl2 is not None and pl2["l"] in roots and not [q for q in pl2["p"] if q[0] != "d"]:
+                                roots.add(s2["lhs"]["l"])
+                for bj, t2 in mir.calls(g):
+                    n2 = (t2.get("callee") or "").split("::")[-1]
+                    if n2 in ("extend", "insert", "append", "union") and t2["args"]:
+                        pl2 = mir.op_place(t2["args"][0])
+                        if pl2 is not None and pl2["l"] in roots:
+                            late_adds.append((g, t2["line"], n2))
+                for y in mir.provenance(g, dg, x.term["args"][0]):
+                    if y.kind == "call" and y.callee == "std::iter::Iterator::filter":
+                        for z in mir.provenance(g, dg, y.term["args"][1]):
+                            if z.kind == "agg" and z.rv.get("closure"):
+                                c = F.fns.get(z.rv["closure"])
+                                capt = {}
+                                for i, o in enumerate(z.rv["ops"]):
+                                    fld = fld_of_operand(o)
+                                    if fld:
+                                        capt[i] = fld
+                                leaves = bool_return_leaves(F, c, follow=lambda r: r.startswith(SELP))
+                                polarity = None
+                                if leaves is not None:
+                                    for sign, t3, g3 in leaves:
+                                        if (t3.get("callee") or "").split("::")[-1] in MEMBER_READS:
+                                            polarity = sign
+                                if polarity is not None and polarity > 0:
+                                    wrong_polarity.append(z.rv["closure"])
+                                    continue
+                                for a in accesses(F, c, fields, 1, owner_capt=capt):
+                                    if a.kind == "member":
+                                        here.add(a.field)
+                                        if a.op == "get" and re.search(r"Map<", fields[a.field]):
+                                            value_dependent.add(a.field)
+                                # a captured plain set (helper parameter standing for a field): membership test on the upvar
+                                if not here and capt:
+                                    for bj, t3 in mir.calls(c):
+                                        if (t3.get("callee") or "").split("::")[-1] in MEMBER_READS:
+                                            here |= set(capt.values())
+            elif x.kind == "call" and depth < 2:
+                r = x.term.get("resolved") or x.callee
+                h = F.fns.get(r)
+                if h is not None and h["crate"] == "tx3_resolver" and not h.get("is_async"):
+                    dh = mir.DefUse(h)
+                    # map the helper's parameters to remembering fields through the call's arguments
+                    pmap = {}
+                    for ai, a in enumerate(x.term["args"]):
+                        fld = fld_of_operand_at(g, dg, a)
+                        if fld:
+                            pmap[ai + 1] = fld
+
+                    def fo(o, h=h, dh=dh, pmap=pmap):
+                        for og in mir.provenance(h, dh, o):
+                            if og.kind == "arg" and og.local in pmap:
+                                return pmap[og.local]
+                        return None
+                    for bj, sj, s2 in mir.stmts(h):
+                        if s2["lhs"]["l"] == 0 and not s2["lhs"]["p"] and s2["rv"]["k"] == "use":
+                            here |= candidates(h, dh, s2["rv"]["op"], fo, depth + 1)
+        return here
+
+    def fld_of_operand_at(g, dg, o):
+        return _field_of(mir.provenance(g, dg, o), fields)
+
+    for bi, t in fu:
+        here = candidates(b, du, t["args"][1], lambda o: fld_of_operand_at(b, du, o))
         if not here:
             good3 = False
         filt_fields |= here
-    if good3:
-        res.add([ok("S-IGNORE", key3, where(b), "fetch_utxos(take(..).into_iter().filter(<membership test on self.%s>).collect())" % "/".join(sorted(filt_fields)))])
+    if good3 and late_adds:
+        g, line, n2 = late_adds[0]
+        res.add([finding("S-IGNORE", key3 + "|added after the filter", where(g, line), "refs are added to the candidate set (`%s`) after it has been filtered against the taken refs: a UTxO an earlier block took becomes a candidate again (e.g. for a block that pins it with `ref:`)" % n2)])
+    elif good3:
+        res.add([ok("S-IGNORE", key3, where(b), "fetch_utxos(take(..).into_iter().filter(<membership test on self.%s>).collect()), nothing added afterwards" % "/".join(sorted(filt_fields)))])
     else:
         res.add([finding("S-IGNORE", key3, where(b), "the refs handed to the store are not filtered through the selector's memory of taken refs%s: a UTxO taken by an earlier block can be offered again" % (" (the filter *keeps* the refs that are members instead of dropping them)" if wrong_polarity else ""))])
     track = filt_fields or set(fields)
